@@ -7,6 +7,7 @@ Decided on the real MIR with BytecodeBuilder recorded as events and every other 
       call - compile_expression(inner, SAME destination register) - and emits nothing itself;
   K3  Interpreter::collect_import_requests_internal requests a module for an import / re-export statement iff the statement is
       not type-only (`import type`, `export type ... from`).
+  K4  Compiler::compile_export_declaration on a type-only export returns Ok and emits nothing, whatever else the statement carries.
 How the parser treats annotations at every position (speculative parses, `<T>(x)` vs comparisons) is not encodable and is
 outside the claim; so is everything else the statement says about whole programs.
 """
@@ -29,6 +30,8 @@ PAIRS = [
     ('function f<T>(x: T): T { return x } declare const zz: number; f<number>(3)', 'function f(x) { return x } f(3)'),
     ('import type { T } from "./types"; const x: number = 1; x', 'const x = 1; x'),
     ('export type { T } from "./types"; const x: number = 1; x', 'const x = 1; x'),
+    ('interface Shape { a: number } export type { Shape }; const x: number = 41; x + 1', 'const x = 41; x + 1'),
+    ('export type * from "./types"; const x: number = 1; x', 'const x = 1; x'),
 ]
 
 
@@ -116,6 +119,278 @@ def k12(rep, cross):
         rep.absorb(ex)
 
 
+def k4(rep, cross):
+    """K4: Compiler::compile_export_declaration on a type-only export (`export type { A }`, `export type { A } from`, `export type * from`)
+    returns Ok and emits nothing, whatever its source / specifiers / namespace / declaration are"""
+    ex = common.executor(unwind=3)
+    astb.install_rc_models(ex)
+    astb.BuilderStub(ex)
+    ex.havoc(r'^Compiler::(?!compile_export_declaration$)', only_if=lambda e, s, c: True)
+    fn = common.fn_name(ex, 'Compiler', 'compile_export_declaration')
+    names = ex.src.structs.get('ExportDeclaration')
+    if not names or 'type_only' not in names:
+        raise driver.Inconclusive('ExportDeclaration.type_only not found in the current source')
+    st = State()
+    decl = st.alloc(Agg('struct', 'ExportDeclaration', {names.index('type_only'): Bool(z3.BoolVal(True))}, lazy=True, nm='$export'))
+    comp = st.alloc(Agg('struct', 'Compiler', {}, lazy=True))
+    ex.call_function(st, fn, [Ref(comp), Ref(decl)])
+    ends = ex.run(st, max_paths=2000)
+    bad = None
+    n = 0
+    for k, e in enumerate(ends):
+        if e.status == 'bound':
+            continue
+        evs = [ev for ev in e.st.events if ev[0] not in ('cast', 'set_span')]
+        if e.status != 'return':
+            # a path that wanders into code the executor has no model for has, by then, already left the "skip" branch
+            evs = evs or [('left-the-skip-branch: %s' % e.detail[:60],)]
+        n += 1
+        ok = e.status == 'return' and isinstance(e.value, EnumV) and e.value.discr == 0 and not evs
+        what = 'compile_export_declaration(type_only) path %d: returns Ok and emits nothing' % k
+        rep.obligation(what, 'unsat' if ok else 'sat', 'any source / specifiers / namespace / declaration', 0.0, detail=[str(ev[0]) for ev in evs][:6])
+        if not ok and bad is None:
+            bad = evs
+    if bad is not None and not rep.seen('C03/compile_export_declaration/type-only'):
+        outs = driver.replay([{'cmd': 'eval', 'src': PAIRS[4][0], 'path': '/d/main.ts'}, {'cmd': 'eval', 'src': PAIRS[4][1], 'path': '/d/main.ts'}])
+        rep.validated += 2
+        p = rep.write_replay('export-type-only', {'events': [str(ev[:2]) for ev in bad][:10], 'pair': PAIRS[4], 'observed': outs})
+        rep.violation('C03/compile_export_declaration/type-only', 'compiling a type-only export has a run-time effect: %s; %r gives %r, erased program gives %r' % (
+            [str(ev[0]) for ev in bad][:5], PAIRS[4][0], outs[0].get('value', outs[0].get('error')), outs[1].get('value', outs[1].get('error'))), p)
+    if n == 0:
+        rep.inconc('compile_export_declaration(type_only): no path examined (vacuity)')
+    rep.vacuity.append('compile_export_declaration(type_only): %d paths' % n)
+    rep.sample({'kernel': 'compile_export_declaration(type_only)', 'paths': n})
+    rep.absorb(ex)
+
+
+# ------------------------------------------------------------------------------------------------
+# K5: the TypeScript-only wrappers are transparent where the compiler looks at the SHAPE of an operand
+# ------------------------------------------------------------------------------------------------
+WRAPPER_PAIRS = [
+    # (annotated, erased): replay route for K5
+    ('const a: any = null; a?.b!.c', 'const a = null; a?.b.c'),
+    ('const o = { v: 7, m() { return this.v } }; o.m!()', 'const o = { v: 7, m() { return this.v } }; o.m()'),
+    ('const o = { v: 7, m() { return this.v } }; (o.m as any)()', 'const o = { v: 7, m() { return this.v } }; (o.m)()'),
+    ('const o = { v: 7, m() { return this.v } }; (<any>o.m)()', 'const o = { v: 7, m() { return this.v } }; (o.m)()'),
+    ('typeof zzz!', 'typeof zzz'),
+    ('const o: any = {x:1}; delete o.x!; o.x', 'const o = {x:1}; delete o.x; o.x'),
+    ('const f = (() => 1) as any; f.name', 'const f = (() => 1); f.name'),
+    ('enum E { A = 1, B = (A as number) + 1 } E.B', 'enum E { A = 1, B = (A) + 1 } E.B'),
+    ('let o: any = {a:1}; o.a!++; o.a', 'let o = {a:1}; o.a++; o.a'),
+    ('const o = { p: "x", t(s: any) { return this.p + s[0] } }; o.t!`q`', 'const o = { p: "x", t(s) { return this.p + s[0] } }; o.t`q`'),
+]
+
+
+def _render(ex, st, v, alias, depth=0):
+    """comparable rendering of an event argument; alias maps wrapper cells to the cell of the wrapped expression"""
+    if depth > 6:
+        return '...'
+    if isinstance(v, str):
+        return v
+    if isinstance(v, tuple):
+        return tuple(_render(ex, st, x, alias, depth + 1) for x in v)
+    if isinstance(v, Ref):
+        a = alias.get(v.addr, v.addr) if not v.path else v.addr
+        return ('ref', a, tuple((p[0], p[1]) for p in v.path))
+    if isinstance(v, Int):
+        return ('int', str(z3.simplify(v.e)))
+    if isinstance(v, Bool):
+        return ('bool', str(z3.simplify(v.e)))
+    if isinstance(v, Opaque):
+        return ('opq', v.ty, str(v.id))
+    if isinstance(v, EnumV):
+        d = v.discr if isinstance(v.discr, int) else str(z3.simplify(v.discr))
+        return ('enum', v.ty, d, tuple(sorted((vi, tuple(sorted((fi, _render(ex, st, fv, alias, depth + 1)) for fi, fv in pl.items()))) for vi, pl in v.payload.items())))
+    if isinstance(v, Agg):
+        return ('agg', v.kind, v.ty, tuple(sorted((i, _render(ex, st, x, alias, depth + 1)) for i, x in v.fields.items())))
+    return str(type(v).__name__)
+
+
+def k5(rep, cross):
+    """For every compiler function that inspects the syntactic form of an operand (typeof / delete operand, call callee, tagged-template
+    tag, ++/-- operand, optional-chain object, the expression whose name is inferred, enum initialisers), compiling the operand X and
+    compiling `X as T` / `<T>X` / `X!` in its place make the same builder calls and the same calls into the rest of the compiler
+    (a recursive call on the wrapper counts as the call on X: that is K2)."""
+    ex0 = common.executor(unwind=3)
+    contexts = []
+
+    def ctx_unary(op):
+        def build(ab, child):
+            vs = ab.ex.enum_variants('UnaryOp')
+            u = ab.struct('UnaryExpression', operator=EnumV('UnaryOp', vs.index(op), {}), argument=child, prefix=Bool(z3.BoolVal(True)))
+            return [ab.ref(u), Int(z3.BitVec('dst', 8), False)]
+        return ('compile_unary_expression', '%s operand' % op.lower(), build)
+    contexts.append(ctx_unary('Typeof'))
+    contexts.append(ctx_unary('Delete'))
+
+    def build_call(ab, child):
+        c = ab.struct('CallExpression', callee=child, arguments=VecV((), 'Argument'), type_arguments=ab.none(), optional=Bool(z3.BoolVal(False)))
+        return [ab.ref(c), Int(z3.BitVec('dst', 8), False)]
+    contexts.append(('compile_call_expression', 'call callee', build_call))
+
+    def build_update(ab, child):
+        u = ab.struct('UpdateExpression', operator=EnumV('UpdateOp', 0, {}), argument=child, prefix=Bool(z3.Bool('upd_prefix')))
+        return [ab.ref(u), Int(z3.BitVec('dst', 8), False)]
+    contexts.append(('compile_update_expression', '++ operand', build_update))
+
+    def build_tag(ab, child):
+        t = ab.struct('TaggedTemplateExpression', tag=child)
+        return [ab.ref(t), Int(z3.BitVec('dst', 8), False)]
+    contexts.append(('compile_tagged_template', 'template tag', build_tag))
+
+    def build_direct(ab, child):
+        return [child.fields[0], Int(z3.BitVec('dst', 8), False)]
+    contexts.append(('compile_delete_expression', 'delete operand', build_direct))
+    contexts.append(('compile_optional_chain_inner', 'optional-chain element', build_direct))
+
+    def build_member_opt(ab, child):
+        m = ab.struct('MemberExpression', object=child, property=ab.enum('MemberProperty', 'Identifier', ab.ident('prop2')),
+                      computed=Bool(z3.BoolVal(False)), optional=Bool(z3.Bool('outer_optional')))
+        return [ab.ref(m), Int(z3.BitVec('dst', 8), False)]
+    contexts.append(('compile_member_expression_optional', 'object of a member access inside an optional chain', build_member_opt))
+
+    def build_call_opt(ab, child):
+        c = ab.struct('CallExpression', callee=child, arguments=VecV((), 'Argument'), type_arguments=ab.none(), optional=Bool(z3.Bool('call_optional')))
+        return [ab.ref(c), Int(z3.BitVec('dst', 8), False)]
+    contexts.append(('compile_call_expression_optional', 'callee of a call inside an optional chain', build_call_opt))
+
+    def build_call_opt_obj(ab, child):
+        m = ab.struct('MemberExpression', object=child, property=ab.enum('MemberProperty', 'Identifier', ab.ident('meth')),
+                      computed=Bool(z3.BoolVal(False)), optional=Bool(z3.Bool('outer_optional')))
+        c = ab.struct('CallExpression', callee=ab.rc(ab.enum('Expression', 'Member', ab.box(m))), arguments=VecV((), 'Argument'), type_arguments=ab.none(),
+                      optional=Bool(z3.BoolVal(False)))
+        return [ab.ref(c), Int(z3.BitVec('dst', 8), False)]
+    contexts.append(('compile_call_expression_optional', 'receiver of a method call inside an optional chain', build_call_opt_obj))
+
+    def build_named(ab, child):
+        return [child.fields[0], Int(z3.BitVec('dst', 8), False), ab.some(ab.jsstring('inferred'))]
+    contexts.append(('compile_expression_with_inferred_name', 'expression with an inferred name', build_named))
+
+    def build_enum_init(ab, child):
+        return [child.fields[0], Int(z3.BitVec('dst', 8), False), Int(z3.BitVec('enum_obj', 8), False), ab.ref(VecV((ab.jsstring('member'),), 'JsString'))]
+    contexts.append(('compile_enum_init_expression', 'enum initialiser', build_enum_init))
+
+    def operands(ab):
+        """operand shapes the compiler distinguishes"""
+        out = []
+        out.append(('identifier', ab.enum('Expression', 'Identifier', ab.ident('member'))))
+        mem = ab.struct('MemberExpression', object=ab.rc(EnumV('Expression', z3.BitVec('obj_kind', 64), {}, lazy=True, nm='$obj')),
+                        property=ab.enum('MemberProperty', 'Identifier', ab.ident('prop')), computed=Bool(z3.BoolVal(False)), optional=Bool(z3.BoolVal(False)))
+        ab.st.assume(z3.ULT(z3.BitVec('obj_kind', 64), len(ab.ex.enum_variants('Expression'))))
+        out.append(('member', ab.enum('Expression', 'Member', ab.box(mem))))
+        arrow = Agg('struct', 'ArrowFunctionExpression', {}, lazy=True, nm='$arrow')
+        out.append(('arrow function', ab.enum('Expression', 'ArrowFunction', arrow)))
+        mem2 = ab.struct('MemberExpression', object=ab.rc(EnumV('Expression', z3.BitVec('obj_kind', 64), {}, lazy=True, nm='$obj')),
+                         property=ab.enum('MemberProperty', 'Identifier', ab.ident('prop')), computed=Bool(z3.BoolVal(False)), optional=Bool(z3.BoolVal(True)))
+        out.append(('optional member', ab.enum('Expression', 'Member', ab.box(mem2))))
+        out.append(('call', ab.enum('Expression', 'Call', ab.box(Agg('struct', 'CallExpression', {}, lazy=True, nm='$call')))))
+        out.append(('optional chain', ab.enum('Expression', 'OptionalChain', Agg('struct', 'OptionalChainExpression', {}, lazy=True, nm='$chain'))))
+        return out
+    missing = [m for m, _, _ in contexts if not ex0._fnkeys.get(('Compiler', None, m))]
+    if missing:
+        rep.inconc('K5: compiler functions not found (renamed?): %r' % missing)
+    n_cmp = 0
+    for meth, where, build in contexts:
+        if meth in missing:
+            continue
+        for wname in ('TypeAssertion', 'NonNull'):
+            traces = {}
+            shapes = None
+            for mode in ('plain', 'wrapped'):
+                ex = common.executor(unwind=3)
+                astb.install_rc_models(ex)
+                astb.BuilderStub(ex)
+                # every other compiler method is abstracted; the function may call ITSELF for real once (from the outermost activation:
+                # that is how a wrapper is unwrapped), deeper self-calls are abstracted like the rest
+                ex.havoc(r'^Compiler::', only_if=lambda e, s, c, m_=meth: not (c.norm == 'Compiler::' + m_ and len(s.frames) == 1))
+                ex.havoc(r'^Expression::span$', ret=lambda e, s, c: Opaque('Span'))
+                fn = common.fn_name(ex, 'Compiler', meth)
+                st0 = State()
+                ab0 = astb.AB(ex, st0)
+                shapes = [n for n, _ in operands(ab0)]
+                for si, sname in enumerate(shapes):
+                    st = State()
+                    ab = astb.AB(ex, st)
+                    xval = operands(ab)[si][1]
+                    xcell = st.alloc(xval)
+                    alias = {}
+                    if mode == 'plain':
+                        child = Agg('rc', 'Rc', {0: Ref(xcell)})
+                    else:
+                        inner = Agg('rc', 'Rc', {0: Ref(xcell)})
+                        if wname == 'TypeAssertion':
+                            w = ab.enum('Expression', 'TypeAssertion', ab.struct('TypeAssertionExpression', expression=inner))
+                        else:
+                            w = ab.enum('Expression', 'NonNull', ab.struct('NonNullExpression', expression=inner))
+                        wcell = st.alloc(w)
+                        alias[wcell] = xcell
+                        child = Agg('rc', 'Rc', {0: Ref(wcell)})
+                    comp = st.alloc(Agg('struct', 'Compiler', {}, lazy=True))
+                    args = build(ab, child)
+                    ex.call_function(st, fn, [Ref(comp)] + args)
+                    try:
+                        ends = ex.run(st, max_paths=6000)
+                    except Exception as err:
+                        raise driver.Inconclusive('K5 %s (%s = %s, %s): %s' % (meth, where, sname, mode, err))
+                    tl = []
+                    for e in ends:
+                        if e.status == 'bound':
+                            continue
+                        if e.status != 'return':
+                            tl.append(('<%s: %s>' % (e.status, e.detail[:80]),))
+                            continue
+                        evs = tuple((ev[0],) + tuple(_render(ex, e.st, x, alias) for x in ev[1:]) for ev in e.st.events
+                                    if ev[0] not in ('cast', 'set_span', 'clone') and not (ev[0] == 'call' and str(ev[1]).endswith('::span')))
+                        # addresses differ between the two runs: number cells by first occurrence
+                        tl.append(_canon(evs, {comp: 'C', xcell: 'X'}))
+                    traces[(mode, sname)] = sorted(set(map(repr, tl)))
+                rep.absorb(ex)
+            for sname in shapes:
+                a, b = traces[('plain', sname)], traces[('wrapped', sname)]
+                n_cmp += 1
+                what = '%s(%s = %s) and the same with the operand wrapped in %s compile to the same calls' % (meth, where, sname, wname)
+                same = a == b
+                rep.obligation(what, 'unsat' if same else 'sat', 'operand shape %s, any contents; every path of both runs' % sname, 0.0,
+                               detail=None if same else {'only_plain': [x[:300] for x in a if x not in b][:2], 'only_wrapped': [x[:300] for x in b if x not in a][:2]})
+                key = 'C03/wrapper-transparency/%s/%s/%s' % (meth, where.replace(' ', '-'), sname.replace(' ', '-'))
+                if not same and not rep.seen(key):
+                    outs = driver.replay([{'cmd': 'eval', 'src': x} for pr in WRAPPER_PAIRS for x in pr])
+                    rep.validated += len(outs)
+                    diff = []
+                    for i, pr in enumerate(WRAPPER_PAIRS):
+                        oa, ob = outs[2 * i], outs[2 * i + 1]
+                        if oa.get('value', oa.get('error')) != ob.get('value', ob.get('error')):
+                            diff.append((pr[0], str(oa.get('value', oa.get('error')))[:60], str(ob.get('value', ob.get('error')))[:60]))
+                    p = rep.write_replay('wrapper-%s-%s-%s' % (meth, where.replace(' ', '-')[:24], sname.replace(' ', '-')), {'function': meth, 'operand': sname, 'wrapper': wname,
+                                         'only_plain': [x[:600] for x in a if x not in b][:3], 'only_wrapped': [x[:600] for x in b if x not in a][:3],
+                                         'program_pairs_that_differ': diff})
+                    rep.violation(key, '%s treats %s %s differently when it is wrapped in a type assertion / non-null assertion%s' % (
+                        meth, where, sname, '; e.g. %r gives %s, erased form gives %s' % diff[0] if diff else ' (symbolic difference in the emitted calls)'), p)
+    rep.vacuity.append('K5: %d plain/wrapped comparisons' % n_cmp)
+    rep.sample({'kernel': 'wrapper transparency', 'comparisons': n_cmp})
+
+
+def _canon(evs, names):
+    """rename cell addresses (in references and inside symbol names) by first occurrence so that two runs can be compared"""
+    names = dict(names)
+
+    def nm(a):
+        if a not in names:
+            names[a] = 'c%d' % len(names)
+        return names[a]
+
+    def go(v):
+        if isinstance(v, tuple):
+            if len(v) == 3 and v[0] == 'ref' and isinstance(v[1], int):
+                return ('ref', nm(v[1]), v[2])
+            return tuple(go(x) for x in v)
+        if isinstance(v, str):
+            v = re.sub(r'\$(\d+)', lambda m: '$' + nm(int(m.group(1))), v)
+            return re.sub(r'\b([A-Za-z_]\w*![0-9]+)\b', lambda m: nm(m.group(1)), v)      # non-stable fresh names
+        return v
+    return go(evs)
+
+
 def k3(rep, cross):
     """type-only import / re-export statements request nothing"""
     for shape in itertools.product(['import', 'reexport'], repeat=2):
@@ -200,6 +475,8 @@ def run(rep):
             rep.violation(key, 'annotated program %r gives %s, its erased form %r gives %s' % (a, ka[:120], b, kb[:120]), p)
     k12(rep, cross)
     k3(rep, cross)
+    k4(rep, cross)
+    k5(rep, cross)
     rep.cross = driver.cross_check(cross, 300, 'ALL', rep.tier, rep.seed)
     rep.extra['cross_checked_obligations'] = len(cross)
 
